@@ -61,6 +61,26 @@ partial def lexLiterals (s : List Char) : List (Option (List Char)) :=
     | none => [none]
   | _ :: r => lexLiterals r
 
+/-- the method calls of a rendered schema outside its string literals, each with its leading numeric argument
+    (canonical decimal when it has one): what the schema enforces, apart from the message texts -/
+partial def schemaCalls (s : List Char) : List (List Char) :=
+  match s with
+  | [] => []
+  | '"' :: _ =>
+    match P.lexJsString s with
+    | some (_, rest) => schemaCalls rest
+    | none => ["<unterminated literal>".toList]
+  | '.' :: r =>
+    let nm := r.takeWhile fun c => c.isAlphanum || c == '_'
+    match r.drop nm.length with
+    | '(' :: r2 =>
+      if nm.isEmpty then schemaCalls r2 else
+      let num := r2.takeWhile fun c => c.isDigit || c == '.' || c == '-' || c == '+' || c == 'e' || c == 'E'
+      let num' := if num.isEmpty then [] else (canonDec num).getD num
+      (nm ++ '(' :: num') :: schemaCalls (r2.drop num.length)
+    | r2 => schemaCalls r2
+  | _ :: r => schemaCalls r
+
 def opValidator (inp imp : Json) : Except String Json := do
   let r ← rtyOfJson (← inp.getObjVal? "rty")
   let decl ← declItems (← inp.getObjVal? "attrs")
@@ -120,7 +140,9 @@ def opValidator (inp imp : Json) : Except String Json := do
       -- (a bound-less or inapplicable length/range has no call to carry its message; email/url always have one)
       (if t == L.TS.prim "string".toList || t == L.TS.optional (L.TS.prim "string".toList) then argMsgs.all fun mtxt => some mtxt ∈ ls else true)
   let orc : List (String × Bool) :=
-    [("nopanic", !implPanic), ("constraints", exotic || implParsed == specParsed), ("literals", implPanic || litsOk implSchema)]
+    [("nopanic", !implPanic), ("constraints", exotic || implParsed == specParsed), ("literals", implPanic || litsOk implSchema),
+     -- the rendered schema makes the calls the proved rendering makes (the constraints reach the schema, on this field)
+     ("schema_calls", implPanic || exotic || (implSchema.map fun x => schemaCalls x.toList) == some (schemaCalls schema))]
   -- classes (stated on the declared input)
   let lits := (dLen ++ dRange).filterMap (·.msgLit)
   let kws := ["min", "max", "email", "url", "length", "range", "message"]
